@@ -40,6 +40,8 @@ def run(ctx):
                         "type identity is equality of canonical GoType descriptions (the generator never prints two distinct types identically)",
                         "variadic attr has cap == len (explicit arguments), so attr[0:N] panics exactly when fewer than N names are given",
                         "the model is faithful to today's code: derive_ok_or_panic holds only as _partial; the two defect classes are proved present in the model and reported as known findings when reproduced"]
+    S.apply_replay(ctx)
+    S.regenerate(ctx)
     ctx.prove()
     if ctx.thorough():
         ctx.leanchecker()
